@@ -16,7 +16,8 @@ pub fn prog_case(em: &mut Emitter, sid: u32, mode: u8, ps: &[Prog], data: &[u8],
         // the same program on sources that hand out only what was asked for / grow in small chunks
         if matches!(o, Oracle::Pass) {
             let k = 1 + (data.len() + code.len()) % 5;
-            if run_flex(mode, ps, data, crate::sources::Policy::Exact) != obs || run_flex(mode, ps, data, crate::sources::Policy::Chunk(k)) != obs {
+            if run_flex(mode, ps, data, crate::sources::Policy::Exact) != obs || run_flex(mode, ps, data, crate::sources::Policy::Chunk(k)) != obs
+               || run_octet_string_source(mode, ps, data, k) != obs {
                 o = Oracle::Fail("outcome-depends-on-how-the-source-delivers".into());
             }
         }
